@@ -69,7 +69,7 @@ def h_main(jC: int, jH: int, jO: int, jq: int, qC: int, qH: int, qO: int, qq: in
 def plan(tier):
     P = []
     for name, params, kind in pc.partitions(tier, "C18"):
-        if "m=2" in name or "m=1" in name:
+        if "m=2" in name or "m=1" in name or "pipe2[" in name:
             continue
         P.append(Part(H + "h_main", params, name, kind=kind, group="pipeline-1row", timeout=1500, path_timeout=120))
     for name, params, kind in pc.partitions2(tier, "C18"):
